@@ -153,6 +153,13 @@ pub trait Est: Sized + Clone {
     fn merge_from(&mut self, _o: &Self) -> bool {
         false
     }
+    /// collect from a *generated* iterator (not a slice): n items, all `base` except item `pos` = `ext`
+    fn from_gen(_n: usize, _pos: usize, _base: f64, _ext: f64, _byref: bool) -> Option<Self> {
+        None
+    }
+    fn ext_gen(&mut self, _n: usize, _pos: usize, _base: f64, _ext: f64, _byref: bool) -> bool {
+        false
+    }
     fn from_value_ctor(_v: f64) -> Option<Self> {
         None
     }
@@ -286,6 +293,14 @@ macro_rules! single_common {
             self.merge(o);
             true
         }
+        fn from_gen(n: usize, pos: usize, base: f64, ext: f64, byref: bool) -> Option<Self> {
+            if byref {
+                let v: Vec<f64> = (0..n).map(|i| if i == pos { ext } else { base }).collect();
+                Some(v.iter().collect())
+            } else {
+                Some((0..n).map(|i| if i == pos { ext } else { base }).collect())
+            }
+        }
         fn par(cfg: &ParCfg, data: &[f64]) -> Option<Self> {
             Some(par_collect::<$t>(cfg, data))
         }
@@ -301,6 +316,15 @@ macro_rules! extend_fns {
         }
         fn ext_ref(&mut self, v: &[f64]) -> bool {
             self.extend(v.iter());
+            true
+        }
+        fn ext_gen(&mut self, n: usize, pos: usize, base: f64, ext: f64, byref: bool) -> bool {
+            if byref {
+                let v: Vec<f64> = (0..n).map(|i| if i == pos { ext } else { base }).collect();
+                self.extend(v.iter());
+            } else {
+                self.extend((0..n).map(|i| if i == pos { ext } else { base }));
+            }
             true
         }
     };
